@@ -31,6 +31,7 @@ pub enum Op {
     Comment { sheet: usize, cell: String, author: String, text: String },
     Merge { sheet: usize, range: String },
     DefinedName { sheet: usize, name: String, address: String },
+    LocalName { sheet: usize, name: String, address: String },
     SheetRemoveRow { sheet: usize, row: u32, n: u32 },
     SheetRemoveCol { sheet: usize, col: u32, n: u32 },
     SheetInsertRow { sheet: usize, row: u32, n: u32 },
@@ -63,6 +64,7 @@ impl Op {
             Op::Comment { .. } => "comment",
             Op::Merge { .. } => "merge",
             Op::DefinedName { .. } => "defined_name",
+            Op::LocalName { .. } => "local_name",
             Op::SheetRemoveRow { .. } => "sheet_remove_row",
             Op::SheetRemoveCol { .. } => "sheet_remove_col",
             Op::SheetInsertRow { .. } => "sheet_insert_row",
@@ -131,7 +133,12 @@ pub fn apply(book: &mut Spreadsheet, op: &Op) -> bool {
             if n <= 1 {
                 None
             } else {
-                book.remove_sheet(*sheet % n).ok()
+                let r = book.remove_sheet(*sheet % n).ok();
+                // the caller keeps the active tab inside the sheet list (remove_sheet does not)
+                if *book.get_workbook_view().get_active_tab() as usize >= book.get_sheet_count() {
+                    book.set_active_sheet(0);
+                }
+                r
             }
         }
         Op::RenameSheet { sheet, name } => {
@@ -152,7 +159,11 @@ pub fn apply(book: &mut Spreadsheet, op: &Op) -> bool {
             }
         }
         Op::SetState { sheet, state } => sheet_mut(book, *sheet).map(|s| {
-            s.set_sheet_state(state.clone());
+            s.set_state(match state.as_str() {
+                "hidden" => umya::SheetStateValues::Hidden,
+                "veryHidden" => umya::SheetStateValues::VeryHidden,
+                _ => umya::SheetStateValues::Visible,
+            });
         }),
         Op::Hyperlink { sheet, cell, url, location, tooltip } => sheet_mut(book, *sheet).map(|s| {
             let mut h = umya::Hyperlink::default();
@@ -173,8 +184,25 @@ pub fn apply(book: &mut Spreadsheet, op: &Op) -> bool {
             s.add_merge_cells(range.clone());
         }),
         Op::DefinedName { sheet, name, address } => sheet_mut(book, *sheet).map(|s| {
-            let _ = s.add_defined_name(name.clone(), address.clone());
+            // a defined name designates cells of a sheet: qualify a bare address with this sheet's name
+            let a = if address.contains('!') { address.clone() } else { format!("'{}'!{}", s.get_name().replace('\'', "''"), address) };
+            let _ = s.add_defined_name(name.clone(), a);
         }),
+        Op::LocalName { sheet, name, address } => {
+            let n = book.get_sheet_count();
+            if n == 0 {
+                None
+            } else {
+                let idx = *sheet % n;
+                sheet_mut(book, idx).map(|s| {
+                    let a = if address.contains('!') { address.clone() } else { format!("'{}'!{}", s.get_name().replace('\'', "''"), address) };
+                    let _ = s.add_defined_name(name.clone(), a);
+                    if let Some(d) = s.get_defined_names_mut().last_mut() {
+                        d.set_local_sheet_id(idx as u32);
+                    }
+                })
+            }
+        }
         Op::SheetRemoveRow { sheet, row, n } => sheet_mut(book, *sheet).map(|s| {
             s.remove_row(row, n);
         }),
@@ -315,8 +343,10 @@ pub fn gen_cell_op(rng: &mut Rng, cfg: &GenCfg, tag: &str) -> Op {
         },
         8 => Op::Comment { sheet, cell, author: format!("author{}", rng.below(3)), text: tagged(rng, tag, cfg.alpha) },
         9 => {
-            let r = 10 + rng.below(10);
-            Op::Merge { sheet, range: format!("A{}:B{}", r * 2, r * 2 + 1) }
+            // non-overlapping by construction: the row band derives from the (unique) step tag
+            let k: u32 = tag.chars().filter(|c| c.is_ascii_digit()).collect::<String>().parse::<u32>().unwrap_or(0) % 5000;
+            let w = 1 + rng.below(3) as u8;
+            Op::Merge { sheet, range: format!("I{}:{}{}", 10 + 3 * k, (b'I' + w) as char, 11 + 3 * k) }
         }
         10 => Op::DefinedName { sheet, name: format!("name_{}_{}", tag.replace(['#', ':'], "_"), rng.below(100)), address: format!("$A${}", 1 + rng.below(9)) },
         _ => Op::Table { sheet, name: format!("T_{}", tag.replace(|c: char| !c.is_ascii_alphanumeric(), "_")), top: 20 + 3 * rng.below(10) as u32 },
@@ -381,11 +411,11 @@ pub fn dump_sheet(ws: &umya::Worksheet, with_style: bool) -> Value {
         .map(|c| (c.get_coordinate().to_string(), c.get_author().to_string(), c.get_text().get_text().to_string()))
         .collect();
     comments.sort();
-    let mut dn: Vec<(String, String)> = ws.get_defined_names().iter().map(|d| (d.get_name().to_string(), d.get_address())).collect();
+    let mut dn: Vec<(String, String, bool)> = ws.get_defined_names().iter().map(|d| (d.get_name().to_string(), d.get_address(), d.has_local_sheet_id())).collect();
     dn.sort();
     json!({
         "name": ws.get_name(),
-        "state": ws.get_sheet_state(),
+        "state": format!("{:?}", ws.get_state()),
         "cells": cells,
         "merges": merges,
         "comments": comments,
